@@ -452,6 +452,16 @@ string (`b"unknown"` is used). -/
 def cidCoding (registry ordering : Option Bytes) : Bytes :=
   pyStrip (registry.getD unknownBytes) ++ Gen.CIDFont.CIDCODING_SEP ++ pyStrip (ordering.getD unknownBytes)
 
+/-- `bytes.decode("latin1")`. -/
+def latin1 (b : Bytes) : String := String.ofList (b.map (fun c => Char.ofNat c.toNat))
+
+/-- Which CID → Unicode map `PDFCIDFont.__init__` picks, from the raw `CIDSystemInfo` entries (`none` = absent or
+not a string): `"Identity" in cid_ordering` looks at the UNSTRIPPED ordering, the collection key is `cidcoding`. -/
+def fontUnicodeMap (tu : ToUni) (registry ordering : Option Bytes) (encoding : String)
+    (hasTTF cmapVertical shipped : Bool) : MapSel :=
+  selectUnicodeMap tu (latin1 (ordering.getD unknownBytes)) (latin1 (cidCoding registry ordering)) encoding hasTTF
+    cmapVertical shipped
+
 /-- `default_width` of a horizontal font: `resolve1(spec.get("DW", 1000))`, replaced by the default when it
 is not a number (`none` = absent). -/
 def dwValue : Option WVal → Rat
